@@ -1,14 +1,118 @@
 ENGINES = [
     {"name": "isa", "path": "vp/engines/isa.py", "serves_properties": ["C01"], "kind_free_text": "lockstep monitor: real single-cycle simulation vs. sequential RV32IM reference after every step"},
+    {"name": "pipe", "path": "vp/engines/pipe.py", "serves_properties": ["C02", "C07", "C08"], "kind_free_text": "event-log monitors on the real five-stage pipeline (retire log, per-step register file, store/output logs, cycle conservation) vs. a timestamp model of the documented schedule; three-way final comparison"},
+    {"name": "cache", "path": "vp/engines/cache.py", "serves_properties": ["C03", "C09", "C12", "C10"], "kind_free_text": "history monitors on the real cached MemorySystem: values vs. flat memory, counters/resident tags vs. tag-only reference cache, write-policy invariant after every operation; explicit-state BFS on the real objects; programs with/without cache in both modes"},
+    {"name": "policy", "path": "vp/engines/policy.py", "serves_properties": ["C10"], "kind_free_text": "exhaustive exploration of the reachable LRU/PLRU state space on the real objects with a reference policy stepped alongside"},
+    {"name": "icache", "path": "vp/engines/icache.py", "serves_properties": ["C11"], "kind_free_text": "fetch-log monitor (wrapper on read_instruction), reference cache replaying the observed fetch addresses, reset/reload sequences"},
+    {"name": "asmrv", "path": "vp/engines/asmrv.py", "serves_properties": ["C04", "C05", "C14"], "kind_free_text": "assembler oracle: AST with semantics -> expected listing/data image; pseudo-instructions judged by effect; metamorphic renderings; print/parse round trips"},
+    {"name": "errors", "path": "vp/engines/errors.py", "serves_properties": ["C15"], "kind_free_text": "outcome classifier on every load_program()/step(): exception type, line number, address, printed form; fault-injected texts and token soups"},
+    {"name": "toy", "path": "vp/engines/toy.py", "serves_properties": ["C06", "C19", "C20"], "kind_free_text": "lockstep monitor vs. reference accumulator machine; exhaustive 2^16 decode/encode; AST-based TOY assembler oracle; twin-object monitor for half-cycle stepping with a 2-state legality automaton"},
+    {"name": "lifecycle", "path": "vp/engines/lifecycle.py", "serves_properties": ["C13", "C16"], "kind_free_text": "twin-object monitors on the Simulation API compared on the observable snapshot and on continuation"},
+    {"name": "fmt", "path": "vp/engines/fmt.py", "serves_properties": ["C17"], "kind_free_text": "wrapper on the number formatter checking every call, exhaustive 12/16-bit sweeps, table monitors with a shadow of written addresses"},
+    {"name": "mem", "path": "vp/engines/mem.py", "serves_properties": ["C18"], "kind_free_text": "access-history monitor on the real flat memories vs. a byte-dict reference"},
 ]
+
+_T = "runtime monitoring: "
 CHECKS = {
     "C01": {
-        "engine": "isa",
-        "ref": "DESIGN.md section 4, C01",
-        "technique": "runtime monitoring: lockstep reference-model monitor on RiscvSimulation.step()",
-        "text": "Every generated single instruction (all 46 supported mnemonics x register aliasing patterns x boundary/random operands and immediates) and every generated program is executed by the real single-cycle simulator while an independent sequential RV32IM reference is stepped alongside; registers, pc, output, exit code, done-ness and touched memory are compared after every step, faults must be reported at the same address with unchanged state. Held on the executions observed; the operand space is sampled, not closed.",
+        "engine": "isa", "ref": "DESIGN.md section 4, C01", "technique": _T + "lockstep reference-model monitor on RiscvSimulation.step()",
+        "text": "Every generated single instruction (all 46 supported mnemonics x 9 register-aliasing patterns x boundary/random operands and immediates, at instruction addresses incl. 0 and the last slot) and every generated program is executed by the real single-cycle simulator while an independent sequential RV32IM reference is stepped alongside; registers, pc, output, exit code, done-ness and touched memory are compared after EVERY step, faults must be reported at the same address with unchanged state. Held on the executions observed; the 2^64 operand space is sampled (boundary classes x random), not closed - exploration is the honest level for a universal claim over operands.",
         "note": "Trusted base: vp/refmodels/rv32.py (written from the RISC-V spec and the documented ecall table; no code shared with the repository). pc compared mod 2^32; memory compared outside the faulting footprint on a fault.",
     },
+    "C02": {
+        "engine": "pipe", "ref": "DESIGN.md section 4, C02", "technique": _T + "retire/store/output event logs and per-step register-file monitor vs. golden trace; three-way final-state comparison",
+        "text": "All instruction sequences up to length 3 (quick) / 5 (thorough) over a 14-symbol hazard-complete alphabet x 3 initial register files (small-scope exhaustive), plus random soup/structured programs and a directed hazard corpus, run on the real five-stage pipeline with hazard detection on. Monitors: address retired in every step must follow the golden order; the register file after every step must equal the reference's register file at that cycle (catches transient wrong-path writes); stores and output must appear in golden order exactly once; faults must carry the golden address with identical registers/memory/output; final registers, memory, output, exit code and counters are compared three-way (five-stage, real single-cycle, sequential reference). Held on what was observed.",
+        "note": "Trusted base: vp/refmodels/rv32.py + vp/refmodels/timed5.py (self-checked against each other on every program). Programs are bounded; non-terminating programs are compared on the simulated prefix.",
+    },
+    "C07": {
+        "engine": "pipe", "ref": "DESIGN.md section 4, C07", "technique": _T + "retire-cycle log vs. timestamp model of the documented schedule; per-step cycle/penalty conservation",
+        "text": "For the same enumerated and random programs the step in which each instruction retires and the total step count must equal the timestamp recurrence of the documented schedule (one fetch per cycle, no forwarding, write-before-read, 2-bubble decode interlock for the two preceding producers, redirect the cycle after MEM, ecall drained in EX); independent straight-line programs are also checked against the closed form n+4; with random data/instruction cache configurations every step must advance the cycle counter by exactly 1 + (miss penalties of the misses observed in that step).",
+        "note": "Trusted base: vp/refmodels/timed5.py, calibrated on the unchanged tree; 'in stage X' read in the GUI convention (instruction sits in X's output latch after the step). The stalls/flushes counters themselves are not part of the claim.",
+    },
+    "C08": {
+        "engine": "pipe", "ref": "DESIGN.md section 4, C08", "technique": _T + "same event-log monitors against the interlock-free timed reference; nop-padding metamorphic check",
+        "text": "The C02 programs run with hazard detection disabled must match the interlock-free timed reference step by step (stale operand reads included: registers per step, retire order and cycle, stores, output, totals); the stalls counter must equal the number of ecall waits the reference predicts (a decode stall would add to it) and the pipeline must never report a decode-stage stall; programs padded with two nops behind every instruction must equal sequential semantics.",
+        "note": "Trusted base: vp/refmodels/timed5.py (interlock=False). The stall-counter prediction skips programs with taken-to-fallthrough branches (ambiguous wrong path).",
+    },
+    "C03": {
+        "engine": "cache", "ref": "DESIGN.md section 4, C03", "technique": _T + "value monitor on every read of the cached MemorySystem vs. flat memory; explicit-state BFS on the real objects; cache on/off differential on programs",
+        "text": "Random geometries (index bits 0-4, block bits 0-3, 1-8 ways / PLRU 1-16, WB/WT, LRU/PLRU, penalties) with a conflict-heavy address universe: every read result is compared with a flat byte store, every word-crossing access must raise ByteOffsetError, after a rejected access the whole universe is read back and must be unchanged; explicit-state breadth-first exploration (depth 4 quick / 6 thorough) of ten tiny geometries on the real objects; programs are run with and without data cache in both pipeline modes and must agree in registers, output, exit code and logical memory. One open known finding (K1, huge blocks) is reported as KNOWN-FINDING.",
+        "note": "Trusted base: FlatMem in vp/refmodels/refcache.py. A rejected access may touch cache state/counters; only stored values are judged (DESIGN 5-r3).",
+    },
+    "C09": {
+        "engine": "cache", "ref": "DESIGN.md section 4, C09", "technique": _T + "counter monitor after every accepted access vs. tag-only reference cache; program-level stats differential between modes and golden trace",
+        "text": "Histories of accepted accesses only: after every operation (hits, accesses, last_hit) and the cycle counter must equal those of a tag-only reference cache with the configured geometry, write policy and replacement policy; uncounted reads and parser-style preloads must leave counters untouched; for programs the data-cache counters must be identical in single-cycle and five-stage mode, equal to the reference cache fed the golden access sequence, and accesses must equal golden loads+stores.",
+        "note": "Trusted base: vp/refmodels/refcache.py + policies.py. Uncounted reads are modelled as state-changing, counter-neutral accesses (what the code documents).",
+    },
+    "C12": {
+        "engine": "cache", "ref": "DESIGN.md section 4, C12", "technique": _T + "state-invariant hook evaluated at the quiescent point after every operation (public cache_repr() + backing Memory)",
+        "text": "After every operation of the C03 histories and of every BFS transition the write-policy invariant is evaluated over the whole address universe: write-through - backing word == logical word and every resident word == backing word; write-back - a non-resident word's backing value == logical value, a resident word's cached value == logical value (no written value is ever lost by an eviction).",
+        "note": "Resident blocks are observed through the public cache_repr(); the backing store through the lower Memory's public read_word.",
+    },
+    "C10": {
+        "engine": "policy", "ref": "DESIGN.md section 4, C10", "technique": _T + "exhaustive reachable-state exploration of the real policy objects with a reference policy stepped alongside; way-level resident-tag monitor in cache histories",
+        "text": "Every reachable state (identity = public get_repr()) x every access(i) for LRU with 1..5 (quick) / 1..8 (thorough) ways and PLRU with 1..8 / 1..16 ways is executed on the real objects (branching by deepcopy): victim, LRU age order and idempotence of a repeated access are compared with timestamp-LRU / explicit-tree-PLRU references - exhaustive for those associativities; larger associativities are sampled by random histories; in cache-level histories the resident tag of every way is compared with the reference after every access, which pins the way a fill displaces.",
+        "note": "Associativities above the bound are only sampled. LRU get_repr() is judged by the order it induces (ascending = oldest first).",
+    },
+    "C11": {
+        "engine": "icache", "ref": "DESIGN.md section 4, C11", "technique": _T + "fetch-log monitor on read_instruction + reference cache replaying the observed fetch addresses; reset/reload sequences",
+        "text": "Random I-cache geometries/policies/penalties x programs (loops smaller and larger than the cache, jumps into the middle of a block, blocks reaching past the program end) in both modes: every fetch must return the very instruction object installed at that address, program results must equal the uncached/sequential result, the access counter must equal the number of observed fetches (= executed instructions in single-cycle mode), the hit counter must equal a reference cache fed the observed fetch addresses, each step's cycle increment must equal 1 + penalty x new misses; after reset()+reload (memory-system level) and load_program of a second program (simulation level) counters are zero, no block is valid and fetches return the new program.",
+        "note": "Five-stage fetches include wrong-path and refetched instructions; they count by definition (reference is fed the observed addresses).",
+    },
+    "C04": {
+        "engine": "asmrv", "ref": "DESIGN.md section 4, C04", "technique": _T + "assembler output monitor vs. AST-with-semantics oracle; pseudo-instructions judged by executing the emitted group on the reference interpreter; metamorphic renderings",
+        "text": "Program ASTs generated from the documented grammar (all real formats, all pseudo forms, stand-alone and in-line labels incl. on expanding pseudo-instructions, several labels per address, label at end of program, forward/backward references, label+0xoff, numeric targets) are rendered into several independent spellings (ABI/xN names, mnemonic case, decimal/hex/binary/negative literals, comments, blank lines, indentation, segment order) and loaded; the listing must occupy consecutive 4-byte slots from 0 and equal, field by field, the instructions the AST denotes; each pseudo statement's group (as assembled alone) must reappear wherever it occurs and must have exactly the documented effect when executed; all renderings must give identical instruction memory.",
+        "note": "Generator scope bounds of DESIGN 5-r6 (documentation is silent there). Immediates compared modulo their encoding width.",
+    },
+    "C05": {
+        "engine": "asmrv", "ref": "DESIGN.md section 4, C05", "technique": _T + "data-image and register monitors after load_program/run vs. AST layout oracle; li constant sweep",
+        "text": "Random data segments (all five directives, 1-9 elements, negative and out-of-range literals) are compared byte by byte (plus guard bytes) with the layout computed from the AST, in both segment orders; name[i] is observed by running la/load/store-by-name programs on the real simulator and comparing registers and memory with the documented effect; li is run for every low-12-bit pattern x 6 boundary high parts (x 4 spellings in the thorough tier) plus random constants; the documented example program must produce the values its stated semantics give.",
+        "note": "t0 may be clobbered by load-by-name (documented). The help page's comment \"x6 = '!'\" is a documentation off-by-one (index 11 of the string is 'd') and is deliberately not asserted.",
+    },
+    "C14": {
+        "engine": "asmrv", "ref": "DESIGN.md section 4, C14", "technique": _T + "print/parse round-trip monitor on repr(instruction) and on program listings",
+        "text": "Every mnemonic of the instruction map except FENCE is constructed directly with all 32 register numbers in every operand position and boundary+random immediates, at varying addresses; its printed text is re-assembled at the same address and class and all fields must be identical; the printed listing of every generated program must re-assemble to the same listing.",
+        "note": "FENCE excluded (no operand syntax implemented, as the property states).",
+    },
+    "C15": {
+        "engine": "errors", "ref": "DESIGN.md section 4, C15", "technique": _T + "outcome classifier on every load_program()/step() call over fault-injected texts, token soups and faulting programs",
+        "text": "AST-generated RISC-V and TOY programs with 1-3 injected lexical/structural faults (35 hostile numeric literals in every literal position, unknown labels/variables/directives, duplicated or misplaced segments, declarations in .text, instructions in .data, dropped commas, truncated lines, odd characters, over-long programs, huge .zero) and token soups are loaded; any outcome other than success, a ParserException subclass with 1 <= line_number <= number of lines, MemorySizeException or MemoryAddressError is a violation; faulting programs in both modes must raise InstructionExecutionException whose address is the reference's faulting address and whose instruction_repr is the printed form of that instruction.",
+        "note": "'Loading always terminates' is restated as 'returns within a 20 s watchdog per text' (firing = inconclusive, never a violation).",
+    },
+    "C06": {
+        "engine": "toy", "ref": "DESIGN.md section 4, C06", "technique": _T + "lockstep reference-model monitor on ToySimulation.step()",
+        "text": "Every one of the 65536 instruction words is placed behind an assembled NOP (so it passes the real fetch/decode) with boundary accumulator/operand combinations (1 combination quick, 20 thorough) and random self-modifying programs (stores into the program area, BRZ beyond the end and to 4095, opcode aliases 13-15, a full 4096-instruction program for pc wrap) are stepped in lockstep with a reference accumulator machine; accu, pc, every memory word, instruction/cycle/branch counters and done-ness are compared after every step.",
+        "note": "Trusted base: vp/refmodels/toy.py written from the TOY help page. The displayed pc runs one ahead of the address executed next.",
+    },
+    "C19": {
+        "engine": "toy", "ref": "DESIGN.md section 4, C19", "technique": _T + "exhaustive decode/encode round trip; TOY assembler image monitor vs. AST oracle",
+        "text": "All 2^16 words are decoded and re-encoded (mnemonic per opcode table, opcodes 13-15 = NOP, address field, equality after round trip) and all assembler-constructible instructions are encoded and decoded - exhaustive; grammar-generated sources (labels stand-alone/in-line, data before/after text, arrays, forward references, decimal/hex operands, mixed case, comments) are loaded and the memory image and max_pc compared word by word with the AST's image; the documented example programs are run to completion and must compute the documented results.",
+        "note": "Image computed from the generator's AST, never by parsing text.",
+    },
+    "C20": {
+        "engine": "toy", "ref": "DESIGN.md section 4, C20", "technique": _T + "twin-object monitor with a 2-state legality automaton over random call strings",
+        "text": "C06 programs are driven by random call strings over {step, first_cycle_step, second_cycle_step, single_step, run} with ~25% illegal calls; a twin driven by step() only is compared at every instruction boundary on the full observable snapshot (state, counters, memory-table markers, visualisation values, register representations); every illegal call must raise StepSequenceError and leave the snapshot unchanged; every call after done must be a no-op.",
+        "note": "run() is only issued when the reference machine says the program terminates.",
+    },
+    "C13": {
+        "engine": "lifecycle", "ref": "DESIGN.md section 4, C13", "technique": _T + "twin-object monitors on step/run/load_program compared on the observable snapshot and on continuation",
+        "text": "Single-cycle, five-stage (random cache configurations, hazard flag) and TOY simulations x programs ending by fall-through, jump outside, exit ecall with younger instructions in flight, or empty text x load histories of 0-5 earlier well-formed and malformed loads: a twin loaded after the history must equal a fresh twin in snapshot and in every later step; step() must return not is_done(); a run() twin must end in the same snapshot as the step loop; after done, further step()/run() (and TOY half-cycle) calls must leave the snapshot unchanged; an empty program must be done immediately.",
+        "note": "'Same state' = observable snapshot (all public inspection results, wall-clock lines removed) + continuation; private attributes are not compared.",
+    },
+    "C16": {
+        "engine": "lifecycle", "ref": "DESIGN.md section 4, C16", "technique": _T + "twin-object monitor: inspected twin vs. blind twin compared on the observable snapshot",
+        "text": "Twin A calls random subsets and repetitions of all 13 (TOY: 6) inspection functions between steps (TOY also between half cycles); twin B is stepped without any inspection until a random step k and is compared with A on the full snapshot after every later step and at the end; both RISC-V modes x random D/I cache configurations (LRU and PLRU, conflict-heavy) x hazard flag, and TOY.",
+        "note": "Idempotent-but-impure inspections are caught because B is uninspected before step k.",
+    },
+    "C17": {
+        "engine": "fmt", "ref": "DESIGN.md section 4, C17", "technique": _T + "wrapper on the formatter checking every call; exhaustive 12/16-bit sweeps; table monitors with a shadow of written addresses",
+        "text": "The four strings of every formatter result are parsed back and must denote value mod 2^n in two's complement with the documented width and grouping: exhaustively for every integer in [-2^n, 2^(n+1)) with n = 12 and 16, boundary+random for n = 32, and for EVERY call the simulator makes during the table workloads (wrapper); after every step of random RISC-V programs (both modes, with and without data cache) and TOY programs the register table, data-memory table, TOY memory table and TOY register representations are checked: rows exactly the words containing a written byte (shadow maintained from the backing Memory's public write calls), ascending, true addresses, values equal to the backing store.",
+        "note": "Bytes of a faulting straddling write are treated as 'either' in the shadow.",
+    },
+    "C18": {
+        "engine": "mem", "ref": "DESIGN.md section 4, C18", "technique": _T + "access-history monitor on the real Memory objects vs. byte-dict reference",
+        "text": "Histories of reads/writes of width 1/2/4/8 at aligned/unaligned addresses around 2^14, 2^32, 0, negative and >= 2^32 spellings with overlapping writes of different widths on the data memory built by RiscvArchitecturalState, and 16/32/64-bit accesses around 0 and 4095/4096 on the TOY memory: every read, every raised / not raised MemoryAddressError and the whole image are compared with a flat little-endian reference after each operation; accesses entirely outside the range must change nothing.",
+        "note": "A straddling write may leave its in-range bytes written or not; each must hold the old or new value and the reference re-synchronises on exactly those bytes.",
+    },
 }
-_PENDING = "check not built yet in this revision of /verif (engine under construction; see DESIGN.md section 4)"
-NOT_APPLICABLE = [{"property_id": "C%02d" % i, "reason": _PENDING} for i in range(1, 21) if "C%02d" % i not in CHECKS]
+NOT_APPLICABLE = []
